@@ -6,10 +6,11 @@ from .goexec import GoExec, Frame, PanicEx, ReturnEx, PathEnd, simp_bool
 from .gospec import SpecMixin, SpecEnv
 from .gocalls import CallsMixin
 from .gostmts import StmtsMixin
+from .golib import LibMixin
 from .smt import Obligation
 from . import speclang
 
-class GoVerifier(GoExec, SpecMixin, CallsMixin, StmtsMixin):
+class GoVerifier(GoExec, SpecMixin, CallsMixin, StmtsMixin, LibMixin):
     def number_loops(self, decl):
         loops, objtypes = {}, {}
         if not hasattr(self, 'global_objs'):
@@ -78,7 +79,7 @@ class GoVerifier(GoExec, SpecMixin, CallsMixin, StmtsMixin):
                 v = self.lay.fresh(n['obj']['t'], n['Name'])
                 st.env[n['obj']['id']] = v; st.names[n['Name']] = n['obj']['id']
                 st.pc += self.lay.wf(v, n['obj']['t'])
-                if isinstance(v, PtrV):
+                if isinstance(v, PtrV) and not (c and c.get('recv_may_be_nil')):
                     st.pc.append(v.ref > 0)      # a method body runs with a receiver; nil receivers are the caller's obligation
         for fld in (decl['Type'].get('Params') or {}).get('List', []) or []:
             for n in fld.get('Names') or []:
@@ -147,7 +148,16 @@ class GoVerifier(GoExec, SpecMixin, CallsMixin, StmtsMixin):
         def run(state):
             try:
                 self.block(state, body.get('List'))
-            except (ReturnEx, PanicEx):
+            except ReturnEx as r:
+                if state.results and state.defers:
+                    # named results: the return operands are stored first, deferred calls may then change them
+                    for oid, val in zip(state.results.values(), r.vals):
+                        self.write_var(state, oid, val)
+                    self.run_defers(state)
+                    raise ReturnEx([self.read_var(state, oid) for oid in state.results.values()])
+                self.run_defers(state)
+                raise
+            except PanicEx:
                 self.run_defers(state)
                 raise
             self.run_defers(state)
@@ -158,7 +168,7 @@ class GoVerifier(GoExec, SpecMixin, CallsMixin, StmtsMixin):
             self.trace = ['exit', n_ret + n_pan]
             if how in ('end', 'return'):
                 n_ret += 1
-                vals = info if how == 'return' else [state.env[o] for o in state.results.values()]
+                vals = info if how == 'return' else [self.read_var(state, o) for o in state.results.values()]
                 self.check_return(state, entry, c, rnames, vals, n_ret)
             elif how == 'panic':
                 n_pan += 1
@@ -226,6 +236,19 @@ class GoVerifier(GoExec, SpecMixin, CallsMixin, StmtsMixin):
         for i, e in enumerate(lem.get('ensures')):
             self.oblige(st, 'lemma-post#%d' % (i + 1), self.sev_bool(env, e.expr), src=e.line)
         return fr
+
+    def read_var(self, st, oid):
+        bx = st.meta.get('boxed')
+        if bx and oid in bx:
+            return self.load_ptr(st, bx[oid])
+        return st.env[oid]
+
+    def write_var(self, st, oid, val):
+        bx = st.meta.get('boxed')
+        if bx and oid in bx:
+            self.store_ptr(st, bx[oid], val)
+        else:
+            st.env[oid] = val
 
     def run_defers(self, state):
         """deferred calls run LIFO at every exit (arguments are evaluated here, not at the defer statement: sound only for
